@@ -1125,3 +1125,89 @@ def ex_wshape(c):
 
 
 EXECUTORS.update({"wshape": ex_wshape})
+
+
+# ---------------------------------------------------------------------------------------------- data home (DataHome.tla)
+def ex_home(c):
+    """One program over get_data_home / clear_data_home / a remote load / the environment variable, replayed in a scratch
+    HOME; after every call: the directory returned (as a symbol), which symbolic directories exist, which hold the cache
+    file, whether the call downloaded, and whether anything else appeared under the scratch root."""
+    import shutil
+    import tempfile
+    import traffic_weaver.datasets._base as base
+    from vlib import VERIF
+    root = tempfile.mkdtemp(prefix="home-", dir=os.path.join(VERIF, ".scratch"))
+    home = os.path.join(root, "h")
+    os.makedirs(home)
+    sym = {"default": os.path.join(home, ".traffic-weaver-data"), "env": os.path.join(root, "e", "envdir"),
+           "arg": os.path.join(root, "a", "argdir"), "tilde": os.path.join(home, "tildedir")}
+    given = {"none": None, "arg": sym["arg"], "tilde": os.path.join("~", "tildedir")}
+    os.makedirs(os.path.join(root, "e"))
+    os.makedirs(os.path.join(root, "a"))
+    baseline = {"h", "e", "a"}
+    saved_env = {k: os.environ.get(k) for k in ("HOME", "TRAFFIC_WEAVER_DATA")}
+    saved = (base.urlretrieve, base._sha256)
+    downloads = []
+
+    def urlretrieve(url, filename=None, *a, **k):
+        downloads.append(url)
+        with open(filename, "w") as f:
+            f.write("0,1.5\n1,2.5\n2,0.25\n")
+        return filename, None
+    remote = base.RemoteFileMetadata(filename="payload.csv", url="https://example.invalid/payload.csv", checksum="00")
+    os.environ["HOME"] = home
+    cwd0 = os.getcwd()
+    os.chdir(root)                     # a path that is not expanded ("~" taken literally) lands in the scratch root
+    if c["envset"]:
+        os.environ["TRAFFIC_WEAVER_DATA"] = sym["env"]
+    else:
+        os.environ.pop("TRAFFIC_WEAVER_DATA", None)
+    base.urlretrieve, base._sha256 = urlretrieve, (lambda p: "00")
+    steps = []
+    try:
+        for a in c["acts"]:
+            k = a["k"]
+            n0 = len(downloads)
+
+            def go():
+                if k == "setenv":
+                    os.environ["TRAFFIC_WEAVER_DATA"] = sym["env"]
+                    return None
+                if k == "unsetenv":
+                    os.environ.pop("TRAFFIC_WEAVER_DATA", None)
+                    return None
+                if k == "get":
+                    return base.get_data_home(given[a["arg"]])
+                if k == "clear":
+                    return base.clear_data_home(given[a["arg"]])
+                if k == "fetch":
+                    d = base.load_csv_dataset_from_remote(remote, "set.pkl", "fold", data_home=given[a["arg"]], delay=0.0)
+                    return ("data", np.asarray(d).shape == (3, 2))
+                raise KeyError(k)
+            oc, o = guarded(go)
+            ret = ""
+            if k == "get" and oc == "ok":
+                ret = next((s for s, p in sym.items() if isinstance(o, str) and os.path.realpath(o) == os.path.realpath(p)), "other")
+            elif k == "fetch" and oc == "ok":
+                ret = "data" if o == ("data", True) else "other"
+            other = sorted(set(os.listdir(root)) - baseline) + sorted(set(os.listdir(home)) - {".traffic-weaver-data", "tildedir"}) \
+                + sorted(set(os.listdir(os.path.join(root, "e"))) - {"envdir"}) + sorted(set(os.listdir(os.path.join(root, "a"))) - {"argdir"})
+            steps.append({"act": a, "outcome": oc, "ret": ret, "dl": len(downloads) - n0,
+                          "exists": sorted(s for s, p in sym.items() if os.path.isdir(p)),
+                          "cached": sorted(s for s, p in sym.items() if os.path.isfile(os.path.join(p, "fold", "set.pkl"))),
+                          "elsewhere": other})
+    finally:
+        base.urlretrieve, base._sha256 = saved
+        os.chdir(cwd0)
+        for k2, v in saved_env.items():
+            if v is None:
+                os.environ.pop(k2, None)
+            else:
+                os.environ[k2] = v
+        shutil.rmtree(root, ignore_errors=True)
+    e = dict(c)
+    e["steps"] = steps
+    return e
+
+
+EXECUTORS.update({"home": ex_home})
